@@ -389,6 +389,19 @@ def euler_case(S):
     hyp["logm_diag_blocks"] = max(mx(Lg[:d, :d]), mx(Lg[d:, d:]))
     Z = -Lg[:d, d:]
     hyp["Z_symmetric"] = mx(Z - Z.T)
+    # premises of C15_euler_glue, block by block, on the actual library outputs
+    u = Uo[:d, :d]
+    hyp["polar_P_block"] = mx(S[:d, :d] - R[:d, :d] @ u)           # P = Rp u
+    hyp["polar_A_block"] = mx(S[:d, d:] - R[:d, d:] @ np.conj(u))  # A = Ra conj(u)
+    hyp["polar_u_unitary"] = eye_res(dag(u) @ u)
+    zero = np.zeros((d, d))
+    Lo = np.block([[zero, -Z], [-np.conj(Z), zero]])
+    hyp["exp_offdiag_blocks"] = mx(sl.expm(Lo) - R)                # R = exp [[0,-Z],[-conj Z,0]]
+    hyp["logm_lower_is_conj_upper"] = mx(Lg[d:, :d] - np.conj(Lg[:d, d:]))
+    hyp["takagi_rec"] = mx(U @ np.diag(D) @ U.T - Z)               # Z = U D U^T
+    hyp["takagi_U_unitary"] = max(eye_res(dag(U) @ U), eye_res(U @ dag(U)))
+    hyp["Rp_is_U_coshD_Udag"] = mx(R[:d, :d] - U @ np.diag(np.cosh(np.real(D))) @ dag(U))
+    hyp["Ra_is_minus_U_sinhD_Ut"] = mx(R[:d, d:] + U @ np.diag(np.sinh(np.real(D))) @ U.T)
     return hyp, recon
 
 
